@@ -593,7 +593,7 @@ def _failed_not_recorded(ck: Checker) -> None:
                                "the error callback remembers the *destination* of the failed copy (second callback argument)",
                                f"the error callback remembers `{x.args[0].id}` (callback argument {pp.index(x.args[0].id) + 1 if x.args[0].id in pp else '?'}), not the destination: the row guard tests destinations, so a failed copy's pre-existing destination is still recorded with the target's hash")
     for n, c in saves:
-        rows = norm(c.args[0]) if c.args else None
+        rows = norm(c.args[0].args[0] if isinstance(c.args[0], ast.Call) and isinstance(c.args[0].func, ast.Name) and c.args[0].func.id in ("list", "tuple") and len(c.args[0].args) == 1 else c.args[0]) if c.args else None
         apps = [x for x in g.nodes.values() for cc in calls_at(x) if is_method_call(cc, "append") and norm(cc.func.value) == rows]
         ck.floor("C13.savepair", len(apps), 1, "row appends for the hash-state update in _create_files")
         for x in apps:
